@@ -179,6 +179,7 @@ def run(eng, run):
     run.floor("C19.own instances", n_inst, 6)
     run.attempt(check_all_attempted, eng, run, race, tc)
     run.attempt(check_every_address_accounted, eng, run, impl)
+    run.attempt(check_late_failures, eng, run)
     run.attempt(check_entry_lists, eng, run, resolver)
     run.attempt(check_registered, eng, run)
     run.attempt(check_winner_handoff, eng, run)
@@ -285,6 +286,56 @@ def check_every_address_accounted(eng, run, impl):
     run.ob("C19.all", f"{impl.short}:every-iteration-returns-or-records-an-error", not silent, continues=len(out.cont), error_list=ev)
 
 
+def check_late_failures(eng, run):
+    """two ways a connection attempt / a finished race can fail *late*, where nobody owns the socket any more:
+    (a) the async TCP client hands the race winner to AsyncStreamEndpoint(...), whose constructor validates `max_recv_size`: the client's
+        own constructor must have rejected every value the endpoint rejects (same comparison), else the endpoint raises after the
+        race and the winner stays open;
+    (b) a per-attempt connect that calls the non-blocking `socket.connect()` itself treats only BlockingIOError / InterruptedError as
+        'in progress': a wider handler turns a synchronous failure (ENETUNREACH) into an attempt that 'succeeds' with an unconnected socket"""
+    from sa.norm import cmp_canon
+    db = eng.db
+
+    def size_guard(fn, name):
+        for i in own_nodes(fn.node):
+            if isinstance(i, ast.If) and any(isinstance(r, ast.Raise) for r in i.body):
+                for c in [x for x in ast.walk(i.test) if isinstance(x, ast.Compare)]:
+                    cc = cmp_canon(fn, c)
+                    if cc is not None and name in cc[0]:
+                        return tuple(sorted((("x" if k == name else k), v) for k, v in cc[0].items())), cc[1]
+        return None
+
+    ep_mod = db.module("lowlevel.api_async.endpoints.stream")
+    val = ep_mod.functions.get("_check_max_recv_size_value")
+    cli = db.cls("clients.async_tcp.AsyncTCPNetworkClient").methods.get("__init__")
+    if val is None or cli is None:
+        raise AnalysisError("anchor vanished: max_recv_size validation of the stream endpoint / async TCP client")
+    want = size_guard(val, val.params()[0].arg)
+    got = size_guard(cli, "max_recv_size")
+    ok = want is not None and got == want
+    if not ok:
+        run.finding("C19.own", cli, cli.node, f"the client constructor's check of `max_recv_size` ({got}) is not the endpoint's ({want}): a value the endpoint rejects passes the constructor, "
+                    "the endpoint raises after the connection race has produced its winner, and that socket is neither returned nor closed")
+    run.ob("C19.own", f"{cli.short}:max_recv_size-validated-like-the-endpoint", ok, endpoint=str(want), client=str(got))
+    n = 0
+    for fn in db.all_functions():
+        if isinstance(fn.node, ast.Lambda) or fn.name != "connect_socket":
+            continue
+        for t in [x for x in own_nodes(fn.node) if isinstance(x, ast.Try)]:
+            if not any(isinstance(c, ast.Call) and isinstance(c.func, ast.Attribute) and c.func.attr == "connect" for b in t.body for c in ast.walk(b)):
+                continue
+            n += 1
+            for h in t.handlers:
+                names = {n_.split(".")[-1] for n_ in (eng.lattice.handler_classes(fn, h.type) or ["<bare>"])}
+                swallow = not any(isinstance(r, ast.Raise) for r in ast.walk(h))
+                ok = not swallow or names <= {"BlockingIOError", "InterruptedError"}
+                if not ok:
+                    run.finding("C19.one", fn, h, f"`except {ast.unparse(h.type) if h.type else ''}` around the non-blocking connect() swallows more than BlockingIOError: a connect that fails at once "
+                                "is treated as in progress, the socket polls writable with SO_ERROR 0 and the failed attempt wins the race with an unconnected socket")
+                run.ob("C19.one", f"{fn.module.name.split('.')[-2]}.{fn.short}:only-EINPROGRESS-is-in-progress", ok, handler=sorted(names))
+    run.count("explicit_nonblocking_connects", n)
+
+
 def _inside_lambda(root, node):
     for lam in ast.walk(root):
         if isinstance(lam, ast.Lambda) and any(x is node for x in ast.walk(lam)):
@@ -352,10 +403,14 @@ def check_registered(eng, run):
     from sa.analyses.base import RuleAnalysis
     from sa.flow import Interp as _I
 
-    ci = eng.db.cls("clients.async_tcp.AsyncTCPNetworkClient")
+    for _q in ("clients.async_tcp.AsyncTCPNetworkClient", "clients.async_udp.AsyncUDPNetworkClient"):
+        _check_registered_one(eng, run, eng.db.cls(_q), RuleAnalysis, _I)
+
+
+def _check_registered_one(eng, run, ci, RuleAnalysis, _I):
     ac = ci.methods.get("aclose")
     if ac is None:
-        raise AnalysisError("anchor vanished: AsyncTCPNetworkClient.aclose")
+        raise AnalysisError(f"anchor vanished: {ci.name}.aclose")
     attrs = set()
     for c in own_nodes(ac.node):
         if isinstance(c, ast.Call) and isinstance(c.func, ast.Attribute) and c.func.attr == "cancel":
